@@ -6,6 +6,7 @@ import (
 	"fmt"
 	"os"
 	"strconv"
+	"sync"
 	"sync/atomic"
 	"testing"
 	"testing/synctest"
@@ -148,6 +149,137 @@ func TestIdleLifetime(t *testing.T) {
 			fmt.Fprintf(mon, "MON %d FAIL %s\n", r, msg)
 		} else {
 			fmt.Fprintf(mon, "MON %d ok subs=%d\n", r, nw+2*limit+2)
+		}
+	}
+}
+
+// TestExpansionChurn (C11, "the full expansion capacity is available again afterwards", for all timings of idle expiry versus new
+// bursts), free-running on the real scheduler: phases of churn - several submitters of short tasks on a pool whose expanded workers
+// live for microseconds only, so that expiries keep coinciding with submitters that find the pool at its limit - alternate with
+// quiescence (every expanded worker gone) and a capacity probe: gated tasks are submitted until NumberWorker+ExpandableLimit of them
+// run at once. A further gated task is added every few milliseconds while the cap has not been reached: each such submission finds the
+// queue slot taken and re-evaluates the expansion, so neither a worker that idled out before its first task nor the parked submitter
+// of known finding F10 keeps a correct pool below its cap for long; only a pool that has lost expansion capacity for good stays below.
+// Never may more than the cap run at once. POOL_RUNS = budget in milliseconds.
+func TestExpansionChurn(t *testing.T) {
+	budgetMs, _ := strconv.Atoi(os.Getenv("POOL_RUNS"))
+	seed, _ := strconv.ParseInt(os.Getenv("POOL_SEED"), 10, 64)
+	monf, err := os.Create(os.Getenv("POOL_MON"))
+	if err != nil {
+		t.Fatal(err)
+	}
+	mon := bufio.NewWriter(monf)
+	defer func() { mon.Flush(); monf.Close() }()
+	deadline := time.Now().Add(time.Duration(budgetMs) * time.Millisecond)
+	for round := 0; round == 0 || time.Now().Before(deadline); round++ {
+		// mostly one fixed worker and several short-lived expanded ones: the most expiries per submission
+		fixed, limit, life := 1, 4, 20*time.Microsecond
+		if round%4 == 3 {
+			fixed = 1 + int(seed+int64(round))%2
+			limit = 1 + int(seed/2+int64(round))%4
+			life = []time.Duration{50 * time.Microsecond, 5 * time.Microsecond, 10 * time.Microsecond}[(round/4)%3]
+		}
+		opt := workerpool.Option{NumberWorker: fixed, ExpandableLimit: int32(limit), ExpandedLifetime: life}
+		fmt.Fprintf(mon, "RUN %d expansion churn: opt=%+v; 8 submitters of short tasks for 3 x 50ms, after each: quiescence, then gated tasks until the cap runs\n", round, opt)
+		mon.Flush()
+		p := workerpool.NewPool(context.Background(), opt)
+		var running, maxRunning int32
+		enter := func() {
+			n := atomic.AddInt32(&running, 1)
+			for {
+				m := atomic.LoadInt32(&maxRunning)
+				if n <= m || atomic.CompareAndSwapInt32(&maxRunning, m, n) {
+					return
+				}
+			}
+		}
+		msg := ""
+		subs := 0
+		for phase := 0; phase < 3 && msg == ""; phase++ {
+			stop := make(chan struct{})
+			var wg sync.WaitGroup
+			var nsub int64
+			for s := 0; s < 8; s++ {
+				wg.Add(1)
+				go func(s int) {
+					defer wg.Done()
+					for i := 0; ; i++ {
+						select {
+						case <-stop:
+							return
+						default:
+						}
+						spin := 200 * (1 + (i+s)%7)
+						task := p.Execute(func(context.Context) (interface{}, error) {
+							enter()
+							for k := 0; k < spin; k++ {
+								_ = atomic.LoadInt32(&maxRunning)
+							}
+							atomic.AddInt32(&running, -1)
+							return nil, nil
+						})
+						atomic.AddInt64(&nsub, 1)
+						if (i+s)%5 == 0 {
+							<-task.Result()
+						}
+					}
+				}(s)
+			}
+			time.Sleep(50 * time.Millisecond)
+			close(stop)
+			wg.Wait()
+			subs += int(nsub)
+			for k := 0; k < 5000 && atomic.LoadInt32(&running) != 0; k++ {
+				time.Sleep(time.Millisecond)
+			}
+			time.Sleep(10 * time.Millisecond) // every expanded worker has been idle for many lifetimes
+			// capacity probe
+			gate := make(chan struct{})
+			var started int32
+			var pw sync.WaitGroup
+			submit := func() {
+				pw.Add(1)
+				go func() {
+					defer pw.Done()
+					task := p.Execute(func(context.Context) (interface{}, error) {
+						enter()
+						atomic.AddInt32(&started, 1)
+						<-gate
+						atomic.AddInt32(&running, -1)
+						return nil, nil
+					})
+					<-task.Result()
+				}()
+			}
+			cap := int32(fixed + limit)
+			for i := int32(0); i < cap+1; i++ {
+				submit()
+			}
+			extra := 0
+			for until := time.Now().Add(8 * time.Second); time.Now().Before(until) && atomic.LoadInt32(&started) < cap; {
+				time.Sleep(3 * time.Millisecond)
+				if atomic.LoadInt32(&started) < cap {
+					submit()
+					extra++
+				}
+			}
+			time.Sleep(5 * time.Millisecond)
+			if got := atomic.LoadInt32(&started); got < cap {
+				msg = fmt.Sprintf("C11 after churn and quiescence (every expanded worker idle for >100 lifetimes) %d gated tasks plus %d more, one every 3ms for 8s, never made more than %d tasks run at once; NumberWorker %d + ExpandableLimit %d = %d: expansion capacity was lost", cap+1, extra, got, fixed, limit, cap)
+			}
+			close(gate)
+			pw.Wait()
+			subs += int(cap) + 1 + extra
+			time.Sleep(2 * time.Millisecond)
+		}
+		if m := atomic.LoadInt32(&maxRunning); int(m) > fixed+limit && msg == "" {
+			msg = fmt.Sprintf("C11 %d tasks ran at once on a pool with NumberWorker %d + ExpandableLimit %d", m, fixed, limit)
+		}
+		p.Stop()
+		if msg != "" {
+			fmt.Fprintf(mon, "MON %d FAIL %s\n", round, msg)
+		} else {
+			fmt.Fprintf(mon, "MON %d ok subs=%d\n", round, subs)
 		}
 	}
 }
